@@ -466,6 +466,10 @@ func (_this *Writer) WriteDecimalFloat(value compact_float.DFloat) {
 		return
 	}
 
+	if !value.IsSpecial() {
+		// Print the canonical (minimized) representation of the value
+		value = compact_float.DFloatValue(value.Exponent, value.Coefficient)
+	}
 	_this.WriteStringNotLF(value.Text('g'))
 }
 
@@ -486,8 +490,20 @@ func (_this *Writer) WriteBigDecimalFloat(value *apd.Decimal) {
 			_this.WritePosInfinity()
 		}
 	default:
+		// Print the canonical (reduced) representation of the value
+		if value.IsZero() {
+			// Reduce() would drop the sign of a negative zero
+			if value.Negative {
+				_this.WriteStringNotLF("-0")
+			} else {
+				_this.WriteStringNotLF("0")
+			}
+			return
+		}
+		var reduced apd.Decimal
+		reduced.Reduce(value)
 		var buff [64]byte
-		used := value.Append(buff[:0], 'g')
+		used := reduced.Append(buff[:0], 'g')
 		_this.WriteBytesNotLF(used)
 	}
 }
